@@ -613,11 +613,13 @@ func (bridge *ExprBridge) convertLikeToFunction(field, pattern string) string {
 		return fmt.Sprintf("%s contains '%s'", field, inner)
 	} else if strings.HasPrefix(pattern, "%") && len(pattern) > 1 {
 		// %pattern -> endsWith操作符
-		suffix := strings.TrimPrefix(pattern, "%")
+		// a run of leading % is equivalent to a single one
+		suffix := strings.TrimLeft(pattern, "%")
 		return fmt.Sprintf("%s endsWith '%s'", field, suffix)
 	} else if strings.HasSuffix(pattern, "%") && len(pattern) > 1 {
 		// pattern% -> startsWith操作符
-		prefix := strings.TrimSuffix(pattern, "%")
+		// a run of trailing % is equivalent to a single one
+		prefix := strings.TrimRight(pattern, "%")
 		return fmt.Sprintf("%s startsWith '%s'", field, prefix)
 	} else if pattern == "%" {
 		// 单独的%匹配任何字符串
